@@ -13,7 +13,8 @@ the byte string `MessageExt::encode` produces.  The object-size table `P::obj_si
 
 The writer is modelled **as repaired** (D12: `tick <= last_tick` is refused; D21: the packing buffer
 is cleared on entry, the snapshot is serialised before anything is written, and a refused call
-restores the builder; D28: the next builder is recycled from the snapshot just written, so that a
+restores the builder; D29: payloads that do not fit into a chunk are refused before anything is
+written; D28: the next builder is recycled from the snapshot just written, so that a
 UUID type keeps its number from one snapshot to the next).
 -/
 namespace Tw.DemoHl
@@ -101,6 +102,20 @@ def snapPayload (objSize : Nat → Option Nat) (keyframe : Bool) (old new : Snap
         let bs := Tw.Snap.packInts xs
         if bs.length > Tw.Gen.Demo.MAX_SNAPSHOT_SIZE then .tooLarge else .ok bs
 
+/-- `Writer::fits_chunk`: a payload `write_snapshot`/`write_snapshot_delta` can store -/
+def fitsChunk (data : Bytes) : Prop :=
+  data.length ≤ Tw.Gen.Demo.MAX_SNAPSHOT_SIZE ∧ (Tw.Huffman.compress table false data).length ≤ 65535
+
+instance (data : Bytes) : Decidable (fitsChunk data) := by unfold fitsChunk; infer_instance
+
+/-- `Writer::fits_message`: a message `write_message` can store -/
+def fitsMessage (msg : Bytes) : Prop :=
+  msg.length ≤ Tw.Gen.Demo.MAX_SNAPSHOT_SIZE
+    ∧ (Tw.Demo.packInts (msgInts msg)).length ≤ Tw.Gen.Demo.MAX_SNAPSHOT_SIZE
+    ∧ fitsChunk (Tw.Demo.packInts (msgInts msg))
+
+instance (msg : Bytes) : Decidable (fitsMessage msg) := by unfold fitsMessage; infer_instance
+
 /-- the key-frame decision of `write_snap`: none written yet, or more than 250 ticks since the last -/
 def DemoWriter.isKeyframe (w : DemoWriter) (tick : Int) : Bool :=
   match w.lastKeyframe with
@@ -128,6 +143,12 @@ def DemoWriter.writeSnap (objSize : Nat → Option Nat) (w : DemoWriter) (tick :
         | none => (w, .panic "Snap::recycle")
         | some b => ({ w with builder := b }, .err .tooLargeSnap)
       | .ok bs =>
+        -- `Writer::fits_chunk` (repair of D29): the compressed payload must fit the 16-bit size field
+        if ¬ fitsChunk bs then
+          match nextBuilder w.snap with
+          | none => (w, .panic "Snap::recycle")
+          | some b => ({ w with builder := b }, .err .tooLargeSnap)
+        else
         match w.inner.writeTick keyframe tick with
         | (_, .panic s) => (w, .panic s)
         | (inner1, .ok) =>
@@ -144,6 +165,7 @@ def DemoWriter.writeSnap (objSize : Nat → Option Nat) (w : DemoWriter) (tick :
 /-- `DemoWriter::write_msg` on the encoded message -/
 def DemoWriter.writeMsg (w : DemoWriter) (msg : Bytes) : DemoWriter × HResult :=
   if msg.length > Tw.Gen.Demo.MAX_SNAPSHOT_SIZE then (w, .err .tooLongNetMsg)
+  else if ¬ fitsMessage msg then (w, .err .tooLongNetMsg)
   else
     match w.inner.writeMessage msg with
     | (_, .panic s) => (w, .panic s)
